@@ -89,7 +89,7 @@ Fixpoint to_optoks (use_gen : bool) (ts : list ltok) : option (list (tok (list N
             match k with
             | KChar 40 => Some TLP
             | KChar 41 => Some TRP
-            | KTok n => if String.eqb n "tokIdent" then Some (TSA (ttext t))
+            | KTok n => if String.eqb n "tokIdent" then Some (TAtom (ttext t))
                         else option_map TOp (if use_gen then gen_binop_of_tok k (tok_text t) else jq_binop_of_text (tok_text t))
             | _ => option_map TOp (if use_gen then gen_binop_of_tok k (tok_text t) else jq_binop_of_text (tok_text t))
             end in
@@ -111,7 +111,7 @@ Definition model_parse (use_gen : bool) (src : list N) : option (option (expr (l
   match tokenize src with
   | Some ts =>
       match to_optoks use_gen ts with
-      | Some ots => Some (if use_gen then parse (list N) gen_lvl gen_asc ots else parse (list N) jq_lvl jq_asc ots)
+      | Some ots => Some (if use_gen then Ops.parse (list N) gen_lvl gen_asc ots else Ops.parse (list N) jq_lvl jq_asc ots)
       | None => None
       end
   | None => None
@@ -146,7 +146,7 @@ Definition run_sexp (use_gen : bool) (e : sexp) : sexp :=
   end.
 
 Definition run_line (l : list N) : list N :=
-  match parse l with
+  match Sexp.parse l with
   | Some (SList [k; e]) => if atom_is "spec" k then print (run_sexp false e) else print (run_sexp true (SList [k; e]))
   | Some e => print (run_sexp true e)
   | None => codes "unparsable"
